@@ -58,6 +58,8 @@ pub struct GenOpts {
     /// edge of usize ("give me the rest"); only where the known finding K2 (ticket wrap-around
     /// after such a request) cannot be mistaken for a violation of the property checked
     pub huge_iter_oneshot_pct: u64,
+    /// chance (percent) that the closure passed to for_each / fold panics at its k-th call
+    pub closure_panic_pct: u64,
 }
 
 impl GenOpts {
@@ -98,6 +100,7 @@ impl GenOpts {
             drop_panic_pct: 0,
             wrapper_nth_pct: 0,
             huge_iter_oneshot_pct: 0,
+            closure_panic_pct: 0,
         }
     }
 }
@@ -187,6 +190,8 @@ pub fn opts_for(prop: &str) -> GenOpts {
             o.w_query = 10;
             o.extra_max = 24;
             o.max_ops = 3;
+            // an end reported while another thread is inside skip_to_end (seeded change C05-r8)
+            o.w_skip = 5;
         }
         "C06" => {
             // "take the rest" chunk sizes at the edge of usize (known-size kinds only)
@@ -327,6 +332,11 @@ pub fn opts_for(prop: &str) -> GenOpts {
             o.into_seq_pct = 50;
             o.drain = false;
             o.heap_pct = 70;
+            // panics of the caller's own code (its closure; or while it holds a chunk) unwind
+            // through the crate, which must release what it had reserved (seeded change C15-r8)
+            o.w_composite = 14;
+            o.consumer_panic_pct = 8;
+            o.closure_panic_pct = 10;
         }
         "C17" => {
             o.w_skip = 6;
@@ -753,6 +763,9 @@ pub fn generate_with(prop: &str, o: &GenOpts, base_seed: u64, index: u64) -> Run
     if panic.is_none() && o.consumer_panic_pct > 0 && rng.chance(o.consumer_panic_pct, 100) {
         // the caller panics after its k-th chunk element (seeded change C08-r5)
         panic = Some((PanicSite::Consumer, rng.range(0, (len.max(1) - 1).min(3)) as u32));
+    }
+    if panic.is_none() && o.closure_panic_pct > 0 && rng.chance(o.closure_panic_pct, 100) {
+        panic = Some((PanicSite::Closure, rng.range(0, len.max(1)) as u32));
     }
     if panic.is_none()
         && o.drop_panic_pct > 0
